@@ -158,8 +158,11 @@ int main() {
             }
             else if ((w[0] == "destroynow" || w[0] == "destroy") && w.size() != 2) {
                 // one C call on an array = the C++ calls in array order
-                for (size_t i = 1; i < w.size(); ++i) d.exec({w[0], w[i]});
-                d.out << "ok" << d.drainSide() << "\n";
+                bool ok = w.size() > 1;
+                Entity tmp;
+                for (size_t i = 1; i < w.size(); ++i) ok = ok && d.parseEntity(w[i], tmp);
+                for (size_t i = 1; ok && i < w.size(); ++i) d.exec({w[0], w[i]});
+                d.out << (ok ? "ok" : "bad-op") << d.drainSide() << "\n";
             }
             else if (w[0] == "set" && w.size() == 4) {
                 Entity e;
